@@ -281,7 +281,7 @@ func sigUndefinedThis(m *engine.Mismatch) bool {
 		return false
 	}
 	switch a["delivery"] {
-	case "call", "apply", "bind":
+	case "call", "apply", "bind", "globalvar":
 	default:
 		return false
 	}
